@@ -16,6 +16,8 @@ def corpus():
     return [
         "run prop=C09 mode=constant rate=3/100ms intervalms=100 dur=650 conc=10 body=1",
         "run prop=C09 mode=constant rate=2/200ms intervalms=200 dur=2400 conc=10 body=1 sloweval=2:120",   # one slow tick must not speed up the rest
+        "run prop=C09 mode=constant rate=1/10900us dist=none dur=1500 conc=4 body=1",      # C09n: an interval with a sub-millisecond remainder is ticked as it is, not snapped to whole milliseconds
+        "run prop=C09 mode=constant rate=1/2500us dist=none dur=800 conc=4 body=0",
         "run prop=C09 mode=constant rate=1/1us dur=1200 conc=256 body=0",
         "run prop=C09 mode=constant rate=1/600us dur=600 conc=256 body=0",      # tick intervals below a millisecond that are not a divisor of it
         "run prop=C09 mode=constant rate=1/400us dur=600 conc=256 body=0",
